@@ -214,7 +214,8 @@ def validate(spec, cfg, traces, timeout=3600, extra_env=None, heap="6g", dfs=Fal
         raise MachineryError(f"postcondition false but nothing parsed\n{out[-3000:]}")
     if not rejected and not inv and "No error has been found" not in out:
         raise MachineryError(f"TLC reported an error that was not understood\n{out[-4000:]}")
-    return dict(rejected=rejected, inv=inv, generated=gen, distinct=dist, n=len(traces), wall_s=dt, out=out)
+    return dict(rejected=rejected, inv=inv, generated=gen, distinct=dist, n=len(traces), wall_s=dt, out=out,
+                spec=spec, cfg=cfg, extra_env=extra_env, heap=heap, dfs=dfs)
 
 
 _RE_BEH = re.compile(r'^"(\[.*\])"$')
